@@ -123,7 +123,13 @@ pub fn generate(rng: &mut Rng, tier: Tier) -> Plan {
     let interp = rng.pick(INTERPS).to_string();
     let intraday = rng.chance(0.15);
     // distinct midnight dates between 2000 and 2060 with arbitrary gaps
-    let start_day = rng.i64_in(10957, 10957 + 3650);
+    let start_day = match rng.below(25) {
+        0 => rng.i64_in(-25_000, -200),   // 1901..1969: negative timestamps
+        1 => rng.i64_in(-400, 400),       // around the epoch
+        2 => rng.i64_in(11_500, 11_580),  // around 2001-09-09 (timestamp digit count changes)
+        3 => rng.i64_in(120_000, 200_000), // 2298..2517
+        _ => rng.i64_in(10957, 10957 + 3650),
+    };
     let mut days = vec![start_day];
     for _ in 1..n {
         let gap = match rng.below(if large { 2 } else { 4 }) {
@@ -145,7 +151,17 @@ pub fn generate(rng: &mut Rng, tier: Tier) -> Plan {
         if s.chars().next().unwrap().is_ascii_digit() {
             s.insert(0, 'c');
         }
-        s
+        // ids are arbitrary strings: padded, spaced, non-ASCII, digit-ending, empty
+        match rng.below(16) {
+            0 => format!(" {}", s),
+            1 => format!("{} ", s),
+            2 => format!("{}\t", s),
+            3 => format!("{} {}", s, s),
+            4 => format!("é{}ß", s),
+            5 => format!("{}7", s),
+            6 => String::new(),
+            _ => s,
+        }
     };
     let df_like = interp == "linear_zero_rate" || rng.chance(0.5);
     let mut nodes: Vec<NodeSpec> = Vec::new();
